@@ -283,6 +283,13 @@ def valuations(j, rng, n):
         Tabout[:3, 3] = qpt - R @ qpt
         routes["Twist3.Revolute(axis,point).exp(angle)"] = (lambda: Twist3.Revolute(uax, qpt).exp(a).A, Tabout, 1.0)
         routes["Twist3.Revolute(axis,point).exp(angle,deg)"] = (lambda: Twist3.Revolute(uax, qpt).exp(math.degrees(a), units="deg").A, Tabout, 1.0)
+        # every representation of the motion moves a point the same way
+        pt = np.array([0.7, -1.2, 2.5])
+        want_p = R @ pt + t
+        routes["UnitDualQuaternion*point"] = (lambda: np.asarray(udq_cls()(SE3(T, check=False)) * pt, dtype=float).ravel(), want_p, sc)
+        routes["Twist3->SE3*point"] = (lambda: np.asarray(Twist3(SE3(T, check=False)).SE3() * pt, dtype=float).ravel(), want_p, sc)
+        routes["UnitQuaternion*point"] = (lambda: np.asarray(UnitQuaternion(SO3(R, check=False)) * pt, dtype=float).ravel(), R @ pt, 1.0)
+        routes["UnitDualQuaternion.SE3*point"] = (lambda: np.asarray(udq_cls()(SE3(T, check=False)).SE3() * pt, dtype=float).ravel(), want_p, sc)
         # a twist times a pose is the product of the poses (mixed representations in one product)
         Y3 = SE3(0.5, -1.0, 2.0) * SE3.Ry(0.4)
         routes["Twist3*SE3"] = (lambda: (Twist3(SE3(T, check=False)) * Y3).A, T @ Y3.A, sc)
